@@ -1,4 +1,4 @@
-(* Proofs about Model/Edit.v : Module::replace_imported_func / Module::replace_exported_func. *)
+(* Proofs about Model/Edit.v : Module::replace_imported_func / Module::replace_exported_func_core. *)
 From Coq Require Import List NArith ZArith Bool Arith Lia Sorted.
 Import ListNotations.
 From WV Require Import Gen.Ops Model.Common Model.IR Model.Arena Model.Builder Model.ModuleM Model.ParseM Model.Edit.
@@ -705,12 +705,12 @@ Proof.
   eapply imported_types_wf; eauto.
 Qed.
 
-(* ================================================================== replace_exported_func *)
+(* ================================================================== replace_exported_func_core *)
 Definition retarget (nid : N) (e : mexport) : mexport :=
   {| ex_name := ex_name e; ex_kind := ex_kind e; ex_item := nid |}.
 
 Lemma replace_exported_inv m fid body m' nid :
-  replace_exported_func m fid body = POk (m', nid) ->
+  replace_exported_func_core m fid body = POk (m', nid) ->
   exists eid f lf0 t T ty ety ar e,
     exported_func_export m fid = Some eid /\
     aget (m_funcs m) fid = Some f /\
@@ -727,7 +727,7 @@ Lemma replace_exported_inv m fid body m' nid :
                  dead := dead (m_funcs m) |})
            (aset_at (m_exports m) eid (retarget nid)).
 Proof.
-  unfold replace_exported_func.
+  unfold replace_exported_func_core.
   destruct (exported_func_export m fid) as [eid|] eqn:Ee; cbn [of_opt_err pbind]; [|discriminate].
   destruct (aget (m_funcs m) fid) as [f|] eqn:Ef; cbn [of_opt_panic pbind]; [|discriminate].
   destruct (fn_kind f) as [imp tid|lf0|ty0] eqn:Ek; try discriminate.
@@ -777,7 +777,7 @@ Record exported_run (m : wir) (fid : N) (body : list N -> list bop) (m' : wir) (
   er_cso : m_code_section_offset m' = m_code_section_offset m }.
 
 Lemma replace_exported_run m fid body m' nid :
-  replace_exported_func m fid body = POk (m', nid) ->
+  replace_exported_func_core m fid body = POk (m', nid) ->
   exists eid f lf0 t ty ety ar e, exported_run m fid body m' nid eid f lf0 t ty ety ar e.
 Proof.
   intros H. destruct (replace_exported_inv _ _ _ _ _ H)
@@ -813,7 +813,7 @@ Qed.
 
 Section Exported.
   Variables (m : wir) (fid : N) (body : list N -> list bop) (m' : wir) (nid : N).
-  Hypothesis Hrun : replace_exported_func m fid body = POk (m', nid).
+  Hypothesis Hrun : replace_exported_func_core m fid body = POk (m', nid).
 
   (* E1, the part that needs no hypothesis: the id is the arena's next id and the new item sits there *)
   Theorem exported_E1_id :
@@ -952,22 +952,22 @@ End Exported.
 (* E5: failure modes *)
 Theorem exported_E5_not_exported m fid body :
   (forall i e, aget (m_exports m) i = Some e -> ~ (ex_kind e = EK_Func /\ ex_item e = fid)) ->
-  replace_exported_func m fid body = PErr.
+  replace_exported_func_core m fid body = PErr.
 Proof.
-  intros Hno. unfold replace_exported_func. rewrite (exported_func_export_none _ _ Hno). reflexivity.
+  intros Hno. unfold replace_exported_func_core. rewrite (exported_func_export_none _ _ Hno). reflexivity.
 Qed.
 
 Theorem exported_E5_not_local m fid body eid f :
   exported_func_export m fid = Some eid -> aget (m_funcs m) fid = Some f ->
   (forall lf, fn_kind f <> FK_Local lf) ->
-  replace_exported_func m fid body = PErr.
+  replace_exported_func_core m fid body = PErr.
 Proof.
-  intros He Hf Hk. unfold replace_exported_func. rewrite He, Hf. cbn [of_opt_err of_opt_panic pbind].
+  intros He Hf Hk. unfold replace_exported_func_core. rewrite He, Hf. cbn [of_opt_err of_opt_panic pbind].
   destruct (fn_kind f) as [imp tid|lf|ty]; [reflexivity|exfalso; eapply Hk; reflexivity|reflexivity].
 Qed.
 
 Theorem exported_ok_pre m fid body m' nid :
-  replace_exported_func m fid body = POk (m', nid) ->
+  replace_exported_func_core m fid body = POk (m', nid) ->
   exists eid f lf0 t, exported_func_export m fid = Some eid /\ aget (m_funcs m) fid = Some f /\
     fn_kind f = FK_Local lf0 /\ types_get m (lf_ty lf0) = Some t.
 Proof.
@@ -979,7 +979,7 @@ Qed.
 Theorem replace_exported_spec m fid body m' nid :
   Forall (fun d => d < length (items (m_funcs m))) (dead (m_funcs m)) ->
   types_wf (m_types m) ->
-  replace_exported_func m fid body = POk (m', nid) ->
+  replace_exported_func_core m fid body = POk (m', nid) ->
   exists eid e f lf0 t lf,
     exported_func_export m fid = Some eid /\ aget (m_exports m) eid = Some e /\
     ex_kind e = EK_Func /\ ex_item e = fid /\
@@ -1067,7 +1067,7 @@ Definition bad_funcs_module : wir :=
 Theorem exported_E1_refuted :
   exists m fid body m' nid,
     types_wf (m_types m) /\
-    replace_exported_func m fid body = POk (m', nid) /\
+    replace_exported_func_core m fid body = POk (m', nid) /\
     aget (m_funcs m') nid = None.
 Proof.
   exists bad_funcs_module, 0%N, (fun _ => []).
